@@ -53,8 +53,9 @@ def elems_of(v):
 # ------------------------------------------------------------------------------------------
 # panics
 
-@model(r"std::rt::panic_fmt|std::rt::begin_panic|(core|std)::panicking::(panic|panic_fmt|panic_explicit|panic_nounwind|panic_display|unreachable_display|"
-       r"assert_failed|panic_const::\w+|panic_bounds_check|panic_in_cleanup|begin_panic)")
+@model(r"std::rt::panic_fmt|std::rt::begin_panic|((core|std)::panicking::)?(panic|panic_fmt|panic_explicit|panic_nounwind|panic_display|"
+       r"unreachable_display|assert_failed|assert_failed_inner|panic_const::\w+|panic_bounds_check|panic_in_cleanup|begin_panic|"
+       r"panic_cold_explicit|panic_cold_display)|(core::panicking::)?assert_failed::<.*>")
 def m_panic(it, ctx, callee, args):
     msg = ""
     if args and isinstance(args[0], Slice):
